@@ -41,6 +41,8 @@ type Cell struct {
 	B     Op   `json:"b"`
 	Cross bool `json:"cross"` // B on a second connection
 	Racy  bool `json:"racy"`  // the two fids are created by walks that return from the backend together
+	// SameFid: request B names the fid of request A (same connection)
+	SameFid bool `json:"samefid"`
 }
 
 // Result of a cell.
@@ -251,7 +253,11 @@ func runCell(t *wirecodec.Table, c Cell, wait time.Duration, evlog *[]map[string
 		res.Err = "prepare A: " + err.Error()
 		return res
 	}
-	bName, bVals, err := prepare(sB, c.B, 20, c.Racy)
+	bBase, bWalked := 20, c.Racy
+	if c.SameFid {
+		bBase, bWalked = 10, true
+	}
+	bName, bVals, err := prepare(sB, c.B, bBase, bWalked)
 	if err != nil {
 		res.Err = "prepare B: " + err.Error()
 		return res
